@@ -8,4 +8,6 @@ python3 -c "import json,sys; json.load(open('MANIFEST.json'))"
 if [ -f replay/Cargo.toml ]; then
   ( cd replay && CARGO_NET_OFFLINE=true CARGO_TARGET_DIR=/verif/build/replay-target cargo build --release --offline -q ) || echo "replay crate build failed (replay documents, never decides)"
 fi
+# warm-up (optional): the repository's own generator, whose output the units `cert` and `gencert` extract from (rule G1); the checks rebuild it from /repo anyway
+( cd /repo && CARGO_NET_OFFLINE=true CARGO_TARGET_DIR=/verif/build/gen-target cargo build --release --offline -q -p varlink_generator --bin varlink-rust-generator ) >/dev/null 2>&1 || echo "generator warm-up failed (the checks that need it will report UNDECIDED)"
 echo setup ok
